@@ -452,7 +452,10 @@ func (u *Unit) binop(fr *Frame, st *State, op token.Token, a, b Val, rt types.Ty
 		return mk(Or(x, y))
 	case token.ADD:
 		if isStr {
-			return u.freshVal(rt, "concat", st.pc)
+			r := u.fresh(SInt, "concat")
+			u.strIncludes(st.pc, r, x)
+			u.strIncludes(st.pc, r, y)
+			return &Scalar{T: r, Typ: rt}
 		}
 		r := Arith("+", x, y)
 		u.overflow(st, r, rt, where)
